@@ -128,6 +128,15 @@ def run_variant(job):
             rules.get(prop)(check)
             status = finish(check, out=buf.append)
         except AnalysisError as err:
+            # as in vcheck: what the rules found before one of them lost its anchor is a finding
+            failed_ = [o for o in check.obligations if not o['ok']] if 'check' in dir() else []
+            try:
+                status_ = finish(check, out=buf.append) if failed_ else 2
+            except Exception:  # pylint: disable=broad-except
+                status_ = 2
+            if status_ == 1:
+                lines_ = [b for b in buf if b.startswith('FAILED-OBLIGATION')]
+                return (variant['name'], 'fired', '', [{'rule': o['rule'], 'key': o['key']} for o in failed_ if any(o['rule'] in l for l in lines_)])
             return (variant['name'], 'analysis-error', str(err), [])
         failed = [o for o in check.obligations if not o['ok']]
         lines = [b for b in buf if b.startswith('FAILED-OBLIGATION')]
